@@ -2,6 +2,8 @@ import IastModel.Rewriter.Visitor
 import IastModel.Spec.Coverage
 import IastModel.Lemmas.Monad
 import IastModel.Lemmas.CovBlock
+import IastModel.Lemmas.CovProgram
+import IastModel.Lemmas.Master
 /-
   C04 — every enabled operation in blocks is instrumented.  Local coverage lemmas: the `+` transform
   never declines a sum that has an operand which is neither a literal sum nor a `+` chain, and the
@@ -94,5 +96,96 @@ theorem entered_block_instruments_required_operations_partial (cfg : Config) (d 
     RL cfg d sp0 ss ≤ cq (qAt d sp0) (blockVisit cfg opFuel (f + 1) (.block ss sp) s).1 :=
   block_cover (okCfg cfg) cfg (cfgOk_dsts cfg) d sp0 opFuel f ss sp s hs
     (by rw [good_block]; simp [h0, hb]) hfin hfo
+
+/-! ### the whole file: every block statement, at any depth, is entered -/
+
+theorem cq_insertPrologue_le (q : Node → Bool) (pro : List Node) (p : Node) : cq q p ≤ cq q (insertPrologue pro p) := by
+  unfold insertPrologue
+  split
+  · rename_i k sp ns body vs
+    have : cqL q (body.take (variableInsertionIndex body)) + cqL q (body.drop (variableInsertionIndex body)) = cqL q body := by
+      conv => rhs; rw [← List.take_append_drop (variableInsertionIndex body) body]
+      rw [cqL_append]
+    simp only [cq_other, cqL_cons, cq_arr, insertAt, cqL_append]
+    omega
+  · exact Nat.le_refl _
+
+/-- a block statement occurs in itself, and in every tree that has it as a child (so `1 ≤ cb B p` is what
+    "`B` is a block statement of `p`" says; the two lemmas build it up along any path) -/
+theorem block_occurs_in_itself (ss : List Node) (sp : Span) : 1 ≤ cb (.block ss sp) (.block ss sp) := by
+  rw [cb_block, beq_self]; simp
+
+theorem block_occurs_in_parent (B : Node) (n k : Node) (hk : k ∈ n.kids) (h : 1 ≤ cb B k) : 1 ≤ cb B n := by
+  rw [cb_eq]
+  have : cb B k ≤ cbL B n.kids := by
+    generalize n.kids = l at hk
+    induction l with
+    | nil => cases hk
+    | cons x xs ih =>
+      simp only [cbL_cons]
+      cases hk with
+      | head => omega
+      | tail _ h' => have := ih h'; omega
+  omega
+
+/-- **C04 for `+`, `+=`, template literals and `recv.m(..)`, for every block statement of the file**
+    (PARTIAL with respect to the property: `X.prototype.m.call|apply(..)`, `recv?.m(..)` and occurrences
+    inside optional chains are decided by the coverage oracle, and so are the bodies of arrow functions
+    written without braces — `x => x + y` becomes a block only during the rewrite).  For every
+    configuration, fuel and program that does not mention the hook namespace and has parser-shaped `+=`
+    targets: unless the rewrite is refused or the model runs out of fuel, **every** block statement `B` of
+    the program — function bodies, bare blocks, loop / `if` / `try` bodies, class method bodies, closures
+    nested at any depth inside other blocks, expressions or declarations — is entered, and the output has
+    at least one hook call of the expected name and span for every operation required in its statements
+    (`required_plus_is_counted` … `required_template_is_counted`). -/
+theorem every_block_statement_is_instrumented_partial (cfg : Config) (fuel : Nat) (p : Node)
+    (h0 : ns p = 0) (ht : targetsOk p = true) (hnb : isBlockNode p = false)
+    (hnc : (transformProgram cfg fuel p).status ≠ .cancelled)
+    (hfo : (transformProgram cfg fuel p).fuelOut = false)
+    (B : Node) (hB : 1 ≤ cb B p) (d : String) (sp0 : Span) :
+    RL cfg d sp0 (stmtsOf B) ≤ cq (qAt d sp0) (transformProgram cfg fuel p).out := by
+  unfold transformProgram at hnc hfo ⊢
+  simp only [StateT.run] at hnc hfo ⊢
+  by_cases hr : hasReserved (tempPrefix cfg.localVarPrefix) p = true
+  · exact absurd (programVisit_reserved cfg _ fuel p {} hr) hnc
+  · simp only [Bool.not_eq_true] at hr
+    simp only [programVisit_eq cfg _ fuel p {} hr] at hnc hfo ⊢
+    have hs0 : StOk ({} : St) := by intro h; cases h
+    have hb0 : bad p = 0 := (bad_zero_iff p).mpr ht
+    have hg : goodW (okCfg cfg) true p = true := good_of_ns0 (okCfg cfg) true p h0 hb0
+    have key := blockVisit_reach (okCfg cfg) cfg (cfgOk_dsts cfg) d sp0 B fuel (fuel + 1) p {} hs0 hg
+    rw [blockVisit_generic cfg fuel fuel p hnb] at key
+    have := key hnc hfo hB
+    split
+    · exact Nat.le_trans this (cq_insertPrologue_le _ _ _)
+    · exact this
+
+/-! non-vacuity: a function declaration whose body calls `g(function () { c + d })` — the inner function
+    body is a block statement of the program, two blocks and one call argument deep -/
+section Example
+open Node
+private def sp1 : Span := ⟨1, 2⟩
+private def inner : Node := .block [.exprStmt (.bin "+" (.ident (.user "c") sp1) (.ident (.user "d") sp1) sp1) sp1] sp1
+private def fe : Node := .other "FunctionExpression" sp1 ["body"] [inner]
+private def outer : Node := .block [.other "ReturnStatement" sp1 ["argument"] [.call (.ident (.user "g") sp1) [.arg none fe] sp1]] sp1
+private def prog : Node := .other "Script" sp1 ["body"] [.arr [.other "FunctionDeclaration" sp1 ["body"] [outer]]]
+example : ns prog = 0 := by
+  simp [prog, outer, inner, fe, ns_eq, mentionsNs, kids]
+  decide
+example : targetsOk prog = true := by
+  apply (bad_zero_iff _).mp
+  simp [prog, outer, inner, fe, bad_eq, assignTargetOk, kids]
+example : isBlockNode prog = false := rfl
+example : 1 ≤ cb inner prog := by
+  apply block_occurs_in_parent _ _ (.arr [.other "FunctionDeclaration" sp1 ["body"] [outer]]) (by simp [prog, kids])
+  apply block_occurs_in_parent _ _ (.other "FunctionDeclaration" sp1 ["body"] [outer]) (by simp [kids])
+  apply block_occurs_in_parent _ _ outer (by simp [kids])
+  apply block_occurs_in_parent _ _ (.other "ReturnStatement" sp1 ["argument"] [.call (.ident (.user "g") sp1) [.arg none fe] sp1]) (by simp [outer, kids])
+  apply block_occurs_in_parent _ _ (.call (.ident (.user "g") sp1) [.arg none fe] sp1) (by simp [kids])
+  apply block_occurs_in_parent _ _ (.arg none fe) (by simp [kids])
+  apply block_occurs_in_parent _ _ fe (by simp [kids])
+  apply block_occurs_in_parent _ _ inner (by simp [fe, kids])
+  exact block_occurs_in_itself _ _
+end Example
 
 end IastModel.C04
